@@ -170,14 +170,24 @@ func tiffPredict(data []byte, colors, columns int) []byte {
 // (zlib.NoCompression .. zlib.BestCompression, zlib.HuffmanOnly).
 func deflate(data []byte, level int) []byte {
 	var buf bytes.Buffer
-	w, err := zlib.NewWriterLevel(&buf, level)
-	if err != nil {
-		panic(err)
+	w := zwriters[level]
+	if w == nil {
+		var err error
+		w, err = zlib.NewWriterLevel(&buf, level)
+		if err != nil {
+			panic(err)
+		}
+		zwriters[level] = w
+	} else {
+		w.Reset(&buf) // the same state as a new writer, without its allocations
 	}
 	w.Write(data)
 	w.Close()
 	return buf.Bytes()
 }
+
+// one compressor per level, reused (the harness runs on one goroutine)
+var zwriters = map[int]*zlib.Writer{}
 
 // inflate is the external-library result supplied to the model: zlib of the
 // standard library, error if the stream is corrupt or truncated.
